@@ -27,7 +27,11 @@ META = {
             "xpos/xquat mismatch test of mj_kinematics1, the collision filters) are decision logic: mj_wake and the geom-geom "
             "part of mj_wakeCollision are modelled and tied by correspondence, equality/tendon/flex triggers and the full step "
             "are only exercised by the scene oracle (cycle well-formedness, bit-frozen qpos / zero qvel, wake on qpos / qvel / "
-            "xfrc_applied / qfrc_applied / contact / equality, sleep-enabled == sleep-disabled while nobody is asleep). "
+            "xfrc_applied / qfrc_applied / contact / equality, sleep-enabled == sleep-disabled while nobody is asleep; compound "
+            "trees - free base with rigidly attached or hinged mast and pad - touched on every one of their bodies while asleep). "
+            "The statement of wakeCollision_wakes_touching is also evaluated on the outputs of the real mj_wakeCollision for every "
+            "wakecol line. When the tie is broken the ops that disagree select a directed search of the stepped engine (wakecol: all "
+            "toucher x sleeping tree x touch site combinations of the compound scenes; other ops: more stack scenes, every wake test). "
             "frozen_partial covers the modelled mj_advance (Euler/implicit path), not RK4 (documented as unsupported with sleep) "
             "nor the forward pipeline. C ints are modelled as unbounded integers (countdown_spec: values stay in [kAwake,-1] or are "
             "tree indices). Known deviation reported by the oracle under the stable key "
@@ -372,6 +376,23 @@ def gen_rich_ops(ctx, lines, models, infos):
                 if t1 >= 0 and t2 >= 0 and not stale[t1] and not stale[t2] and rng.random() < 0.9:
                     continue
                 cons.append((b1, b2))
+            if rng.random() < 0.5:
+                # the only touch of a sleeping tree is on one (sometimes two) of its bodies - root, jointed or jointless
+                # descendant - by a body of an awake tree; no other contact of the line involves that tree
+                asl = [t for t in range(n) if not stale[t]]
+                awk = [b for b in range(nb) if info["body_treeid"][b] >= 0 and stale[info["body_treeid"][b]]]
+                if asl and awk:
+                    t = rng.choice(asl)
+                    cons = [c for c in cons if t not in (info["body_treeid"][c[0]], info["body_treeid"][c[1]])]
+                    own = [b for b in range(nb) if info["body_treeid"][b] == t]
+                    # stratified by the kind of body: tree root / descendant with joints / descendant without joints
+                    strata = {}
+                    for b in own:
+                        strata.setdefault((b == info["tree_bodyadr"][t], info["body_jntnum"][b] > 0), []).append(b)
+                    own = strata[rng.choice(sorted(strata))] if rng.random() < 0.8 else own
+                    for b in rng.sample(own, min(len(own), rng.choice((1, 1, 2)))):
+                        pair = (b, rng.choice(awk))
+                        cons.insert(rng.randint(0, len(cons)), pair if rng.random() < 0.5 else pair[::-1])
             lines.append("wakecol %d | %s | %s | %s | %s | %s" % (rng.random() < 0.93, J(ta), J(stale), " / ".join("%d %d" % c for c in cons),
                                                                J(info["body_treeid"]), J(ba)))
             bump("wakecol")
@@ -438,6 +459,8 @@ def spec_update(flg, ta, info):
 def op_oracle(ctx, lines, outs, infos_by_line, model_by_line):
     nfail, checked = 0, 0
     cur_model = [None]
+    wc = {"calls": 0, "awake-asleep contacts": 0, "... sleeping side is a jointless body of its tree": 0}
+    ctx.extra["op_oracle_wakecol"] = wc
 
     def fail(key, what, line, out):
         nonlocal nfail
@@ -516,6 +539,29 @@ def op_oracle(ctx, lines, outs, infos_by_line, model_by_line):
                 cur = got
                 if not is_cyc(cur):
                     fail("c18:cyc-broken", "tree_asleep no longer encodes closed cycles after a valid operation", l, o)
+                    break
+        elif w == "wakecol":
+            # wake on touch (the statement of wakeCollision_wakes_touching, on the outputs of the real function): sleep enabled,
+            # well-formed array, tree_awake only reports awake trees as awake, completed call -> every geom-geom contact
+            # between two trees of which tree_awake reported at least one awake leaves both trees awake
+            segs = l.split(" | ")
+            en, ta, stale = int(segs[0].split()[1]), ints(segs[1]), ints(segs[2])
+            if not en or not is_cyc(ta) or not o.startswith("ok") or len(stale) != len(ta) or any(s and v >= 0 for s, v in zip(stale, ta)):
+                continue
+            nta = ints(o.split(" | ")[1])
+            btree = info["body_treeid"]
+            checked += 1
+            wc["calls"] += 1
+            for c in segs[3].split(" / ") if segs[3].strip() else []:
+                b1, b2 = ints(c)
+                t1, t2 = btree[b1], btree[b2]
+                if t1 >= 0 and t2 >= 0 and stale[t1] != stale[t2]:
+                    wc["awake-asleep contacts"] += 1
+                    if info["body_jntnum"][b1 if not stale[t1] else b2] == 0:
+                        wc["... sleeping side is a jointless body of its tree"] += 1
+                if t1 >= 0 and t2 >= 0 and (stale[t1] or stale[t2]) and (nta[t1] >= 0 or nta[t2] >= 0):
+                    fail("c18:wakeCollision-missed-touching", "mj_wakeCollision left a tree asleep that is in contact (bodies %d, %d: trees %d, %d) "
+                         "with a tree reported awake" % (b1, b2, t1, t2), l, o)
                     break
         elif w == "update":
             segs = l.split(" | ")
@@ -682,7 +728,7 @@ def check_records(ctx, info, recs, perturbed_at, replay, stats):
     return True
 
 
-def scene_scripts(ctx, impl, nscenes):
+def scene_scripts(ctx, impl, nscenes, all_tests=False, stats_key="scene_stats"):
     rng = ctx.rng
     stats = {"scenes": 0, "steps": 0, "asleep_tree_steps": 0, "wake_tests": {}, "equal_hash_steps": 0, "scenes_with_sleep": 0,
              "multi_tree_cycles": 0}
@@ -733,7 +779,7 @@ def scene_scripts(ctx, impl, nscenes):
         qidx, vidx = tree_slices(info)
         tests = ["qpos", "qvel", "xfrc", "qfrc", "contact", "negzero", "none"]
         rng.shuffle(tests)
-        tests = tests[:4 if ctx.tier == "quick" else 7]
+        tests = tests[:4 if ctx.tier == "quick" and not all_tests else 7]
         if "equality" in meta:
             tests.append("equality")
         for kind in tests:
@@ -812,7 +858,126 @@ def scene_scripts(ctx, impl, nscenes):
                                    "two sleeping islands joined by a newly active equality did not both wake" if kind == "equality" else
                                    "sleeping island did not wake as a whole after the user changed %s" % kind,
                                    dict(rp, before=before["ta"], after=after["ta"]))
-    ctx.extra["scene_stats"] = stats
+    ctx.extra[stats_key] = stats
+
+
+# ---- compound trees: wake on touch for every kind of body of a sleeping tree
+STAND_KINDS = ("none", "fixed", "hinge", "hinge+pad", "fixed+pad")
+
+
+def stand_scene(rng):
+    """Stands on a plane, 1 m apart, each its own tree: a free base box (half 0.1 0.1 0.05) and optionally a mast (child body,
+    box half 0.03 0.03 0.1 standing on the base; rigidly attached = no joint of its own, or on a damped vertical hinge) and
+    optionally a pad (box half 0.05 0.05 0.02) rigidly attached on top of the mast.  Returns (description lines, stands)."""
+    L = ["option timestep %r" % rng.choice((0.002, 0.004)),
+         "option integrator %d" % E(rng.choice(("mjINT_EULER", "mjINT_IMPLICITFAST", "mjINT_IMPLICIT"))),
+         "option cone %d" % E(rng.choice(("mjCONE_PYRAMIDAL", "mjCONE_ELLIPTIC"))),
+         "option enableflags %d" % E("mjENBL_SLEEP"),
+         "geom 1 0", "set 1 type %d" % E("mjGEOM_PLANE"), "set 1 size 10 10 0.1", "name 1 floor"]
+    kinds = list(STAND_KINDS)
+    rng.shuffle(kinds)          # declaration order decides which side of a contact is geom[0]
+    stands, h = [], 10
+    for i, kind in enumerate(kinds):
+        x = 1.0 * i
+        L += ["body %d 0" % h, "name %d s%d" % (h, i), "set %d pos %r 0 0.05" % (h, x), "freejoint %d %d" % (h + 1, h),
+              "geom %d %d" % (h + 2, h), "set %d type %d" % (h + 2, E("mjGEOM_BOX")), "set %d size 0.1 0.1 0.05" % (h + 2)]
+        top = 0.05                                   # height of the top face above the centre of the base
+        if kind != "none":
+            L += ["body %d %d" % (h + 3, h), "set %d pos 0 0 0.15" % (h + 3)]
+            if kind.startswith("hinge"):
+                L += ["joint %d %d" % (h + 4, h + 3), "set %d type %d" % (h + 4, E("mjJNT_HINGE")), "set %d axis 0 0 1" % (h + 4),
+                      "set %d damping 0.5" % (h + 4)]
+            L += ["geom %d %d" % (h + 5, h + 3), "set %d type %d" % (h + 5, E("mjGEOM_BOX")), "set %d size 0.03 0.03 0.1" % (h + 5)]
+            top = 0.25
+            if kind.endswith("+pad"):
+                L += ["body %d %d" % (h + 6, h + 3), "set %d pos 0 0 0.12" % (h + 6),
+                      "geom %d %d" % (h + 7, h + 6), "set %d type %d" % (h + 7, E("mjGEOM_BOX")), "set %d size 0.05 0.05 0.02" % (h + 7)]
+                top = 0.29
+        stands.append({"kind": kind, "top": top})
+        h += 10
+    return L, stands
+
+
+def compound_contact_scenes(ctx, impl, nscenes, ntests):
+    """Every geom-bearing body of a sleeping compound tree (root with its own dofs, rigidly attached child, hinged child, rigidly
+    attached grandchild) is touched by an awake tree, which touches with its root body (upright) or with its top-most body
+    (upside down).  ntests: number of (toucher, target, site) combinations tried per scene (None = all)."""
+    rng = ctx.rng
+    st = ctx.extra.setdefault("compound_contact_stats", {"scenes": 0, "runs": 0, "touch_checked": 0, "no_touch": 0, "target_awake": 0,
+                                                         "steps": 0, "asleep_tree_steps": 0, "by_site": {}})
+    for _ in range(nscenes):
+        L, stands = stand_scene(rng)
+        model_line = "model " + " ; ".join(L)
+        settle = rng.choice((150, 250))
+        base = [model_line, "sstep %d" % settle]
+        rc, outs, err = run_impl(ctx, impl, base)
+        rp0 = {"scene_lines": [model_line], "commands": base[1:], "stands": [s["kind"] for s in stands],
+               "how": "feed scene_lines + commands to the c18_sleep harness"}
+        if rc or len(outs) != 2 or not outs[0].startswith("model-ok") or not outs[1].startswith("ok "):
+            ctx.oracle_failure("c18:scene-error", "engine error / crash while settling compound trees", dict(rp0, rc=rc, outs=[o[:300] for o in outs[:2]], stderr=err[-300:]))
+            continue
+        info = parse_model_out(outs[0])
+        if info["ntree"] != len(stands):
+            raise RuntimeError("stand scene: unexpected tree count %s" % info["ntree"])
+        recs = [parse_rec(x) for x in outs[1][3:].split(" ; ")]
+        st["scenes"] += 1
+        if not check_records(ctx, info, recs, set(), rp0, st):
+            continue
+        final, q = recs[-1]["ta"], [unhex(v) for v in recs[-1]["qpos"]]
+        # tree i is stand i (trees are numbered in declaration order of their root bodies)
+        qadr = [info["jnt_qposadr"][info["body_jntadr"][info["tree_bodyadr"][t]]] for t in range(len(stands))]
+        vadr = [info["jnt_dofadr"][info["body_jntadr"][info["tree_bodyadr"][t]]] for t in range(len(stands))]
+        combos = []
+        for t, tgt in enumerate(stands):
+            sites = ["top", "top-flipped", "base"] + (["mast-side"] if tgt["kind"] != "none" else [])
+            combos += [(u, t, s) for u in range(len(stands)) if u != t for s in sites]
+        rng.shuffle(combos)
+        for u, t, site in combos[:ntests]:
+            if final[t] < 0 or abs(q[qadr[t] + 3]) < 1 - 1e-6:
+                st["target_awake"] += 1          # target did not fall asleep upright: nothing to test
+                continue
+            tx, ty, tz = q[qadr[t]:qadr[t] + 3]
+            pen, quat, vel = 0.004, "1 0 0 0", "0 0 -0.5"
+            if site == "top":                    # toucher's base comes down on the top-most geom of the target
+                pos = (tx, ty, tz + stands[t]["top"] + 0.05 - pen)
+            elif site == "top-flipped":          # toucher upside down: its top-most geom comes down on the top-most geom of the target
+                pos, quat = (tx, ty, tz + stands[t]["top"] + stands[u]["top"] - pen), "0 1 0 0"
+            elif site == "base":                 # toucher's base comes down on the rim of the target's base, clear of mast and pad
+                pos = (tx + (0.17 if stands[t]["kind"] != "none" else 0.0), ty, tz + 0.05 + 0.05 - pen)
+            else:                                # toucher's base slides into the side of the mast, between base and pad
+                pos, vel = (tx + 0.03 + 0.1 - pen, ty, tz + 0.15), "-0.5 0 0"
+            cmds = ["sset qpos %d %r %r %r %s" % (qadr[u], pos[0], pos[1], pos[2], quat), "sset qvel %d %s 0 0 0" % (vadr[u], vel)]
+            lines2 = base + cmds + ["sstep 1", "sstep 3"]
+            rc, o2, err = run_impl(ctx, impl, lines2)
+            st["runs"] += 1
+            rp = {"scene_lines": [model_line], "commands": lines2[1:], "stands": [s["kind"] for s in stands], "toucher_tree": u,
+                  "sleeping_tree": t, "site": site, "how": "feed scene_lines + commands to the c18_sleep harness"}
+            if rc != 0 or len(o2) != len(lines2) or any(x.startswith("error") or x == "bad-op" for x in o2):
+                msg = " ".join(x for x in o2 if x.startswith("error"))
+                if "sleeping" in msg:
+                    ctx.oracle_failure("c18:missed-wake:contact", "an awake tree touched a sleeping tree (%s stand, site %s) and the step "
+                                       "aborted instead of waking it: %s" % (stands[t]["kind"], site, msg[:200]), rp)
+                else:
+                    ctx.oracle_failure("c18:scene-error", "engine error / crash in a compound-tree touch test", dict(rp, outs=[x[:300] for x in o2[-3:]], stderr=err[-300:]))
+                continue
+            before = parse_rec(o2[1][3:].split(" ; ")[-1])
+            if before["ta"] != final:
+                ctx.oblige("scene replay is deterministic", "correspondence", False, json.dumps(rp)[:500])
+                continue
+            after = [parse_rec(o2[-2][3:])] + [parse_rec(x) for x in o2[-1][3:].split(" ; ")]
+            if not check_records(ctx, info, [before] + after, {1}, rp, st):
+                continue
+            isl = orbit(final, t)
+            touched = [k for k, r in enumerate(after) if any({a, b} == {u, t} for a, b, ex in r["cons"] if ex == 0)]
+            if not touched:
+                st["no_touch"] += 1
+                continue
+            st["touch_checked"] += 1
+            st["by_site"][site + "/" + stands[t]["kind"]] = st["by_site"].get(site + "/" + stands[t]["kind"], 0) + 1
+            r = after[touched[0]]
+            if any(r["ta"][x] >= 0 for x in isl):
+                ctx.oracle_failure("c18:missed-wake:contact", "sleeping island did not wake as a whole when an awake tree touched it "
+                                   "(%s stand, site %s)" % (stands[t]["kind"], site), dict(rp, before=before["ta"], after=r["ta"]))
 
 
 def random_model_scenes(ctx, impl, nmodels):
@@ -902,7 +1067,8 @@ def run(ctx):
                 "(n<=4) x every argument of mj_sleepCycle / mj_wakeIsland / (n<=3) mj_sleepTrees, all op histories of a small length from "
                 "the all-ready array, seeded random long histories, random mj_sleep / mj_wake / mj_wakeCollision / mj_updateSleepInit / "
                 "mj_Euler calls over random body topologies; a case is distinct by its full line; scenes: seeded stacks of free boxes "
-                "(+pendulum, mocap) and gen/models.py models stepped with sleep enabled")
+                "(+pendulum, mocap), compound stands (free base + rigid / hinged mast + pad) touched while asleep, and gen/models.py "
+                "models stepped with sleep enabled")
     ctx.lean_props(THEOREMS)
     drv = ctx.driver("drv_c18")
     impl = ctx.harness("harness/c/c18_sleep.c", "c18_sleep", deps=["harness/mjbuild.h"])
@@ -957,8 +1123,33 @@ def run(ctx):
         ctx.oracle_failure("c18:crash", "sleep harness crashed on op lines (rc=%s)" % rc, {"stderr": err[-500:]})
     # ---- scenes
     scene_scripts(ctx, impl, 120 if thorough else 7)
+    compound_contact_scenes(ctx, impl, 8 if thorough else 1, None if thorough else 8)
     random_model_scenes(ctx, impl, 400 if thorough else 25)
     static_pair_finding(ctx, impl)
+
+    # ---- directed search of the engine when the tie (or a theorem) is broken: the ops that disagree say where to look
+    state = {"done": False}
+
+    def directed(c=ctx):
+        n0 = len(ctx.oracle_failures)
+        if not state["done"]:
+            state["done"] = True
+            kinds = {b["line"].split(" ", 1)[0] for b in bad if b.get("line")}
+            if not kinds or "wakecol" in kinds:
+                # contact wake decision: touch every kind of body of sleeping compound trees, all combinations
+                compound_contact_scenes(ctx, impl, 3, None)
+            if not kinds or kinds - {"wakecol"}:
+                # sleep / wake / derived arrays / advance: more stack scenes with every perturbation test
+                scene_scripts(ctx, impl, 12, all_tests=True, stats_key="directed_scene_stats")
+            ctx.extra["directed_search"] = {"disagreeing_ops": sorted(kinds), "new_failures": len(ctx.oracle_failures) - n0}
+        new = ctx.oracle_failures[n0:]
+        knownk = {k["key"] for k in ctx.known()}
+        new = [f for f in new if f["key"] not in knownk] or new
+        return new[0] if new else None
+
+    if bad:
+        directed()
+    ctx.directed_search = directed
 
     if thorough:
         ctx.leanchecker(["MjProof.Props.C18"])
